@@ -503,6 +503,21 @@ def daemon_phase(ctx, n):
         bad = None
         for si, (st, ob) in enumerate(zip(c["steps"], o["steps"])):
             nat = {ch["name"]: ch["rules"] for ch in ob["nat"]}
+            # the sockets: after a set-up that succeeded the container's ports are held; after one that failed (and was rolled
+            # back) and after a CNI DEL - whether or not its iptables calls succeeded - none of them is
+            if st["op"] in ("setup", "cleanup") and ob.get("held") is not None:
+                mine = {(p_[0], p_[2]) for s2 in c["steps"][:si + 1] if s2["op"] == "setup" and s2["pod"] == st["pod"] for p_ in s2["ports"]}
+                held = {(h_[0], h_[1]) for h_ in ob["held"]}
+                if st["op"] == "setup" and not ob["err"]:
+                    want = {(p_[0], p_[2]) for p_ in st["ports"] if p_[2] in ("TCP", "UDP")}
+                    if not want <= held:
+                        bad = (si, "after a set-up that reported success these host ports are not held by a socket: %s" % sorted(want - held))
+                elif mine & held:
+                    bad = (si, "%s, yet these host ports of the pod are still held by a socket: %s" % (
+                        "the set-up failed and was rolled back" if st["op"] == "setup" else "the pod was torn down (CNI DEL%s)" % (", failed" if ob["err"] else ""),
+                        sorted(mine & held)))
+                if bad:
+                    break
             if st["op"] == "basic":
                 basic = {k: v for k, v in nat.items() if k != "KUBE-MARK-MASQ"}
             if st["op"] in ("cleanup", "gc_clean") and prev is not None:
